@@ -784,7 +784,10 @@ example : ∃ cl, CompiledFor (Datum.ofList [.sym ['f']]) 20 cl := by
   | error err => rw [h'] at h; cases h
   | ok r =>
     obtain ⟨st, lam, ent⟩ := r
-    exact ⟨⟨encodeLam lam, [], []⟩, st, lam, ent, lam, h', .inl rfl, ⟨encList_encode _, fun y hy => by cases hy⟩⟩
+    refine ⟨⟨encodeLam lam, [], List.replicate lam.envmap.length (.undefined, .internal)⟩, st, lam, ent, lam, h', .inl rfl,
+      ⟨encList_encode _, fun y hy n hn => ?_, List.length_replicate⟩⟩
+    rw [(List.mem_replicate.mp hy).2] at hn
+    cases hn
 
 end T04_6
 
